@@ -327,8 +327,29 @@ class Canon(ast.NodeTransformer):
                 return ast.copy_location(new, n)
         return n
 
+    @staticmethod
+    def _bool_test(t):
+        """a conditional expression with a constant truth-value branch, used as a test:  X if C else False -> C and X ;
+        True if C else X -> C or X ; False if C else X -> not C and X ; X if C else True -> not C or X"""
+        while isinstance(t, ast.IfExp) and not any(isinstance(x, ast.NamedExpr) for x in ast.walk(t)):
+            c, a, b = t.test, t.body, t.orelse
+            neg = lambda e: e.operand if isinstance(e, ast.UnaryOp) and isinstance(e.op, ast.Not) else ast.copy_location(ast.UnaryOp(op=ast.Not(), operand=e), e)  # noqa: E731
+            if isinstance(b, ast.Constant) and b.value is False:
+                new = ast.BoolOp(op=ast.And(), values=[c, a])
+            elif isinstance(a, ast.Constant) and a.value is True:
+                new = ast.BoolOp(op=ast.Or(), values=[c, b])
+            elif isinstance(a, ast.Constant) and a.value is False:
+                new = ast.BoolOp(op=ast.And(), values=[neg(c), b])
+            elif isinstance(b, ast.Constant) and b.value is True:
+                new = ast.BoolOp(op=ast.Or(), values=[neg(c), a])
+            else:
+                break
+            t = ast.copy_location(new, t)
+        return t
+
     def visit_If(self, n):
         self.generic_visit(n)
+        n.test = self._bool_test(n.test)
         if n.orelse and isinstance(n.test, ast.UnaryOp) and isinstance(n.test.op, ast.Not) and not self._has_walrus(n.test):
             new = ast.If(test=n.test.operand, body=n.orelse, orelse=n.body)
             return ast.copy_location(new, n)
@@ -367,6 +388,7 @@ class Canon(ast.NodeTransformer):
     def visit_While(self, n):
         # while A: (if C: break); REST   ->   while A and not C: REST      (no else clause: a break would skip it)
         self.generic_visit(n)
+        n.test = self._bool_test(n.test)
         while (
             not n.orelse and n.body and isinstance(n.body[0], ast.If) and not n.body[0].orelse
             and len(n.body[0].body) == 1 and isinstance(n.body[0].body[0], ast.Break) and len(n.body) > 1
@@ -458,7 +480,10 @@ class Module:
         except RecursionError:
             self.inlined = []
         if self.inlined:
-            self.idioms += normalise_idioms(self.tree)  # forms exposed by inlining (renaming walrus, get-or-create ...)
+            # forms exposed by inlining: the canonical form once more (conditions like `X if C else False` from a helper's
+            # decision tree, temporaries of the inlined body), then the idioms (renaming walrus, get-or-create ...)
+            self.tree = Canon().visit(self.tree)
+            self.idioms += normalise_idioms(self.tree)
             ast.fix_missing_locations(self.tree)
         self.imports: dict[str, str] = {}
         self.functions: dict[str, Func] = {}
